@@ -21,6 +21,7 @@ def main():
     ap.add_argument("--tier", default="quick")
     ap.add_argument("--keep", action="store_true")
     ap.add_argument("--scratch", default=os.path.join(os.environ.get("TMPDIR", "/tmp"), "deserr-mut"))
+    ap.add_argument("--seed-dir", default=os.path.join(V, "seeded"))
     a = ap.parse_args()
     S = a.scratch
     repo = os.path.join(S, "repo")
@@ -48,7 +49,7 @@ def main():
         env.pop(k, None)
     results = {}
     for sid in a.seeds:
-        d = os.path.join(V, "seeded", sid)
+        d = os.path.join(a.seed_dir, sid)
         meta = json.load(open(os.path.join(d, "meta.json"))) if os.path.exists(os.path.join(d, "meta.json")) else {}
         props = [p for p in a.props.split(",") if p] or meta.get("checks", [meta.get("property", sid[:3])])
         sh("git checkout -q -- .", cwd=repo)
